@@ -231,7 +231,7 @@ func runC08(c *Ctx, si interface{}) {
 			return
 		}
 		c.Count("constructions", 1)
-		for _, scheme := range capSchemes {
+		for _, scheme := range append(append([]string{}, capSchemes...), "Random", "ONE") {
 			for si, sep := range s.Seps {
 				rec := spg.NewWLRecipe(s.Length, wl)
 				rec.Capitalize = spg.CapScheme(scheme)
